@@ -25,3 +25,9 @@ reg('C04', 'runtime monitoring: history monitors (pristine-twin differential, se
     'structural fingerprint of the tree (incl. attribute value types and identities) before and after, with bs4 '
     'mutators trapped during the call. Histories are biased to the memoising pseudo-classes and to twin subtrees.',
     'Trusted: re-materialising the same recipe yields an equal pristine document; fingerprint covers public bs4 state.')
+reg('C05', 'runtime monitoring: metamorphic law monitor over identity sets returned by the real select()',
+    'Nine to thirteen Boolean-algebra laws (union, :is union in both orders, complement, list complement, '
+    'intersection, :where/:matches = :is, monotonicity, and the same with the default namespace neutralised by *|*) '
+    'are evaluated on the results the real API returns for random selector triples from the whole grammar, on seven '
+    'document kinds and five namespace maps. No reference is involved, so every pseudo-class is in scope.',
+    'Trusted: only set arithmetic on returned node identities; U taken from select("*") / select("*|*").')
